@@ -64,9 +64,28 @@ class AllocScn:
                         w.observe("iid", t, j, c.id, "new")
                     keep.append(c)
 
+            def failer():
+                # calls that fail AFTER their channel id was allocated (the kwargs cannot be serialised)
+                from checks import aux_c06_funcs as F
+
+                for j in range(2):
+                    try:
+                        gw.remote_exec(F.check_kwargs, text="t", data=object(), n=j)
+                        w.observe("fail", j, "accepted")
+                    except BaseException as e:  # noqa: BLE001
+                        w.observe("fail", j, type(e).__name__)
+
             for t in range(P["ithreads"]):
                 S.user(alloc, f"alloc{t}", (t,))
+            if P.get("failer"):
+                S.user(failer, "failer")
             S.join_users()
+            if P.get("failer"):
+                # ids handed out after the failed calls must not collide with live channels
+                for j in range(2):
+                    c = gw.newchannel()
+                    w.observe("iid", "late", j, c.id, "new")
+                    keep.append(c)
             wids = ctl.receive(timeout=20)
             w.observe("wids", wids)
             # every exec channel echoes its own tag: cross-connection would mix them up
@@ -105,7 +124,7 @@ class AllocScn:
 
         if ("main-done",) not in obs:
             return V("hang", "main never finished")
-        if len(iids) != P["ithreads"] * P["k"] or len(wids) != P["wthreads"] * P["k"]:
+        if len(iids) != P["ithreads"] * P["k"] + (2 if P.get("failer") else 0) or len(wids) != P["wthreads"] * P["k"]:
             return V("missing", f"allocations: initiator {iids} worker {wids}")
         if len(set(iids)) != len(iids):
             return V("id-collision", f"initiator handed out duplicate channel ids {iids}")
@@ -116,6 +135,8 @@ class AllocScn:
         if any(i % 2 == 0 for i in iids) or any(i % 2 == 1 for i in wids):
             return V("id-parity", f"initiator ids {iids} must be odd, worker ids {wids} even")
         for e in obs:
+            if e[0] == "fail" and e[2] != "DumpError":
+                return V("failed-exec", f"remote_exec with an unserialisable argument: {e}")
             if e[0] == "echo" and e[3] != ("echo", (e[1], e[2])):
                 return V("cross-connected", f"exec channel of thread {e[1]} alloc {e[2]} echoed {e[3]!r}")
             if e[0] in ("echo-exc", "cross"):
@@ -458,6 +479,14 @@ def run(tier: str, only=None) -> int:
             b1, b2 = {"ps": 3, "free": 2}, {"ps": 1, "pl": 2, "free": 1}
         harness.run_exploration(rep, PID, name + "/sync", AllocScn, A, b1, max_execs=cap, min_outcomes=mo)
         harness.run_exploration(rep, PID, name + "/stmt", AllocScn, A, b2, stmt=stmt, max_execs=cap)
+    # calls failing after their id was allocated, racing with allocations of other threads
+    stmt_f = harness.stmt_mask(lambda m, q, l: stmt_pred(m, q, l) or (m == "gateway" and q.startswith("Gateway.remote_exec")))
+    for i, A in enumerate(({"ithreads": 1, "wthreads": 1, "k": 2, "failer": True}, {"ithreads": 1, "wthreads": 1, "k": 2, "mix": True, "failer": True})):
+        name = f"alloc-failing/{i}"
+        if only and only not in name:
+            continue
+        harness.run_exploration(rep, PID, name + "/sync", AllocScn, A, {"ps": 1, "free": 1} if tier == "quick" else {"ps": 2, "free": 1}, max_execs=cap)
+        harness.run_exploration(rep, PID, name + "/stmt", AllocScn, A, {"ps": 0, "pl": 1, "free": 0} if tier == "quick" else {"ps": 0, "pl": 2, "free": 1}, stmt=stmt_f, max_execs=cap)
     n = 0
     for d in ("to-worker", "to-init"):
         for shape in ("bare", "list", "tuple", "dict", "nested", "set"):
